@@ -289,6 +289,34 @@ pub fn prepare(file: Vec<u8>, announce: &dyn Fn(&J)) -> Result<Prepared, String>
     })
 }
 
+/// compress then decompress through the two wrappers with ample windows; Some(description) if
+/// that does not return the file
+fn wrapper_roundtrip_failure(file: &[u8], announce: &dyn Fn(&J)) -> Option<String> {
+    announce(
+        &J::obj()
+            .set("engine", J::str("cabi"))
+            .set("workload_hash", J::Str(format!("{:016x}", hash_bytes(file))))
+            .set("plan_key", J::str("roundtrip"))
+            .set("plan", J::str("wrapper_roundtrip")),
+    );
+    let cap = zstd::zstd_safe::compress_bound(file.len() * 2 + 65536) + 65536;
+    let c = raw_call(Call::Compress, file, cap, None, false);
+    if c.status != 0 {
+        return Some(format!("WrapperCompressZip returned {} with an ample window", c.status));
+    }
+    let d = raw_call(Call::Decompress, &c.out, file.len() + 4096, None, false);
+    if d.status != 0 || d.out != file {
+        return Some(format!(
+            "WrapperCompressZip returned 0 ({} bytes) but WrapperDecompressZip on that output returned {} / {} bytes (file has {})",
+            c.out.len(),
+            d.status,
+            d.out.len(),
+            file.len()
+        ));
+    }
+    None
+}
+
 fn input_bytes(prep: &Prepared, plan: &CabiPlan) -> Vec<u8> {
     match plan.call {
         Call::Compress => match &plan.input_op {
@@ -705,6 +733,28 @@ impl Engine for CabiEngine {
                 return res;
             }
             Err(reason) => {
+                if crate::engine_upgrade::reference_roundtrips(&file) {
+                    // the reference build handles this file, so compressing and decompressing it
+                    // through the two wrappers must return it on this tree as well
+                    if let Some(what) = wrapper_roundtrip_failure(&file, &announce) {
+                        let h = hash_bytes(&file);
+                        res.evaluations += 1;
+                        res.digest = hash_bytes(reason.as_bytes());
+                        res.violations.push(Violation {
+                            clause: "roundtrip_regression".into(),
+                            key: format!("roundtrip_regression:{:016x}", h),
+                            what: format!("{} (the reference build round-trips this file; fault-free baseline on this tree: {})", what, reason),
+                            replay: J::obj()
+                                .set("engine", J::str("cabi"))
+                                .set("workload_hash", J::Str(format!("{:016x}", h)))
+                                .set("plan_key", J::str("roundtrip"))
+                                .set("plan", J::str("wrapper_roundtrip"))
+                                .set("workload_gen", gen.clone())
+                                .set("workload_hex", J::Str(json::hex(&file))),
+                        });
+                        return res;
+                    }
+                }
                 res.bump("baseline_rejected");
                 res.bump(&format!("baseline_rejected.{}", reason));
                 res.digest = hash_bytes(reason.as_bytes());
@@ -1003,8 +1053,29 @@ impl Engine for CabiEngine {
                     detail: format!("WrapperCompressZip failed with a window above compress_bound on a file that round-trips fault-free: {}", r),
                 }
             }
-            Err(r) => return bad(format!("workload no longer usable fault-free on this tree ({})", r)),
+            Err(r) => {
+                if doc.get_str("plan") == Some("wrapper_roundtrip") {
+                    let file = json::unhex(doc.get_str("workload_hex").unwrap_or("")).unwrap_or_default();
+                    if crate::engine_upgrade::reference_roundtrips(&file) {
+                        if let Some(what) = wrapper_roundtrip_failure(&file, &|_| {}) {
+                            return ReplayOutcome {
+                                clause: Some("roundtrip_regression".into()),
+                                digest: 0,
+                                detail: what,
+                            };
+                        }
+                    }
+                }
+                return bad(format!("workload no longer usable fault-free on this tree ({})", r));
+            }
         };
+        if doc.get_str("plan") == Some("wrapper_roundtrip") {
+            return ReplayOutcome {
+                clause: None,
+                digest: 0,
+                detail: "wrapper round trip works".into(),
+            };
+        }
         if doc.get_str("plan") == Some("ample_compress") {
             return ReplayOutcome {
                 clause: None,
